@@ -1908,7 +1908,7 @@ func (eng *Engine) verifyHoudini(run func(drop map[string]bool) *VC) *VC {
 			return vc
 		}
 		scratch := scratchDir()
-		solveAll(autos, solveOpts{timeoutS: 2, scratch: scratch, workers: 12})
+		solveAll(autos, solveOpts{timeoutS: 8, scratch: scratch, workers: 12})
 		os.RemoveAll(scratch)
 		changed := false
 		for _, o := range autos {
